@@ -72,6 +72,29 @@ CHECKS = {
   ref="DESIGN.md §3 C14",
   note=CONN_NOTE,
   technique="Coq all-states proofs for direct/rewritten/stored/inbound paths + size monitor + differential correspondence"),
+ "C10": dict(
+  text="Coq theorems, Closed under the global context. For EVERY state (hence every first history and close path): notify_closed resets the "
+       "packet-size limits, alias tables, partial frame, pending subscribe/unsubscribe ids and all timers, ends a non-persistent session, and "
+       "keeps only the options. Dead-at-connect: the outcome (state and events) of an accepted clean-start CONNECT, sent or received, depends "
+       "on the options only - receive maxima, counters, alias tables, keep-alive values, is_client, store, in-flight sets, handled ids and "
+       "identifiers in use of two objects may differ arbitrarily and the results are EQUAL; so a reused object equals a fresh one after the "
+       "CONNECT and every script yields equal events and return values (determinism). PARTIAL: allocator bounds as a step invariant and the "
+       "whole-trace comparison on the CONNACK(session not present) path are decided by the paired-run monitor (reused vs fresh implementation "
+       "object: events + full digest) and the correspondence.",
+  ref="DESIGN.md §3 C10",
+  note=CONN_NOTE + " Paired cases: the application releases the ids it holds before reusing the object; offline publishing is configured between connections.",
+  technique="Coq all-states state-equality proofs (dead-at-connect) + determinism + paired-run differential monitor on two implementation objects"),
+ "C16": dict(
+  text="Coq theorems, Closed under the global context: restore_packets on any object with a well-formed allocator, for every export with distinct "
+       "free identifiers, appends exactly the export in order, takes exactly its identifiers, and makes each entry wait for exactly its "
+       "acknowledgement; a fresh object given the export of a session satisfying the store invariant has a session state EQUAL to the "
+       "original's (store, three in-flight sets, interval list of identifiers in use, handled ids), so the reconnect (CONNECT sent/received) "
+       "has equal state and events on original-after-close and restored, and so has every continuation; restore is total, QoS0 and "
+       "already-used identifiers are skipped. PARTIAL: that reachable persistent-session states satisfy the store invariant is decided by "
+       "the monitors and the paired-run monitor (original vs restored implementation object, events + full digest), not yet a theorem.",
+  ref="DESIGN.md §3 C16",
+  note=CONN_NOTE + " Paired cases use determinate versions (an export cannot be restored into an object of undetermined version).",
+  technique="Coq proofs of restore (refinement to the set spec via C20) + state-equality/determinism + paired-run differential monitor on two implementation objects"),
  "C12": dict(
   text="Coq theorems, Closed under the global context, for every state and every M: the vacancy getter is M minus the counter saturating at "
        "zero (never wraps or panics); a QoS>0 PUBLISH arriving when the peer already has the announced maximum outstanding is answered "
